@@ -45,12 +45,18 @@ from . import c06 as _v
 PID = "C20"
 
 HISTORY_POOL = ["a eq 1 and contains(b/c, 'x')", "a eq", "a eq ) 1", "a eq #", "nosuch(1)", "length(1, 2)",
+                "geo.distance(p, geography'SRID=0;Point(1 2)') lt 5 and city eq 'New  York'",
                 # paths of three and more segments: plain, as lambda owner, and in inputs that fail *after* the path was reduced
                 "a/b/c eq 1", "a/b/c/any(x: x/p/q gt 1) and", "f(a/b/c/d) eq"]
+# near-duplicates: texts that differ only where a normalising memo key would not look (blank runs and letter case inside a
+# quoted literal, the namespace of a function name, the spelling of a number, the case of a field name, trailing blanks)
+NEAR = ["city eq 'New  York'", "city eq 'New York'", "city eq 'New\tYork'", "city eq 'new york'", "CITY eq 'New York'",
+        "distance(p, geography'SRID=0;Point(1 2)') lt 5", "geo.contains(x, 'y')", "contains(x, 'y')", "geo.length(p)", "n eq 01", "n eq 1",
+        "n eq 1.0", "n eq 1 ", "n  eq  1", "geography'SRID=0;Point(1  2)' eq p", "geography'SRID=0;Point(1 2)' eq p"]
 PROBES = ["a eq 1 and contains(b/c, 'x')", "a/any(x: x/k gt 1) or not (b in (1, 2))", "a eq", "(a", "a eq #", "nosuch(1)",
           "length(1, 2)", "", "geo.distance(p, geography'SRID=0;Point(1 2)') lt 5",
           "name in ('a', 'b', 'c', 'd', 'a')", "n in (3, 1, 2, 3, 1) and m in ('x', 1, 'x', 2.5, null, 1)",
-          "a/b/c eq 1", "a/b/c/d ne a/b/c", "a/b/c/any(x: x/p/q gt 1)", "f(a/b/c) eq a/b/c/d", "ns.f(p=1, q=a/b/c, r='s')"]
+          "a/b/c eq 1", "a/b/c/d ne a/b/c", "a/b/c/any(x: x/p/q gt 1)", "f(a/b/c) eq a/b/c/d", "ns.f(p=1, q=a/b/c, r='s')"] + NEAR
 ALIAS_MAPS = [{"a": "b/c"}, {"a": "b/c", "x/y": "tolower(z)", "n": "m"}, {}, {"a": "b/c/d", "x/y": "b/c/d", "n": "b/c/d/e"}]
 REWRITE_INPUTS = ["a eq 1", "x/y eq n or f(a) gt a/k", "items/any(a: a/n eq n)"]
 # sub-expressions that are written twice inside one filter must decode identically both times
@@ -106,6 +112,47 @@ def fresh_outcome(text: str) -> tuple:
     if text not in FRESH:
         FRESH[text] = outcome(ODataLexer(), ODataParser(), text)
     return FRESH[text]
+
+
+# the reference outcome of a probe is taken from a process that has parsed NOTHING else: a memo on the class or the module
+# (shared by every instance, fresh ones included) would make a fresh pair in this process agree with the used pair
+_ISOLATED_CHILD = r'''
+import base64, pickle, sys
+from odata_query import ast, exceptions
+from odata_query.grammar import ODataLexer, ODataParser
+from verif import gen
+res = None
+for text in sys.argv[1:]:
+    lexer, parser = ODataLexer(), ODataParser()
+    try:
+        r = parser.parse(lexer.tokenize(text))
+    except exceptions.ODataException as e:
+        res = ("lib", type(e).__name__, str(e))
+    except Exception as e:
+        res = ("foreign", type(e).__name__, str(e))
+    else:
+        res = ("node", gen.decode(r)) if isinstance(r, ast._Node) else ("non-node", type(r).__name__)
+sys.stdout.write(base64.b64encode(pickle.dumps(res)).decode())
+'''
+
+
+def isolated_outcomes(seqs: Sequence[Sequence[str]]) -> List[Optional[tuple]]:
+    """outcome of the LAST text of every sequence, each sequence in its own fresh interpreter (fresh pair per text)"""
+    import base64
+    import pickle
+    env = dict(os.environ)
+    env["PYTHONPATH"] = os.pathsep.join([env["PYTHONPATH"]] if env.get("PYTHONPATH") else []) or ""
+    env["PYTHONPATH"] = os.pathsep.join(x for x in (env["PYTHONPATH"], str(_root())) if x)
+    out: List[Optional[tuple]] = [None] * len(seqs)
+    width = min(16, os.cpu_count() or 4)
+    for lo in range(0, len(seqs), width):
+        procs = [(k, subprocess.Popen([sys.executable, "-c", _ISOLATED_CHILD, *seqs[k]], env=env, stdout=subprocess.PIPE,
+                                      stderr=subprocess.PIPE, text=True)) for k in range(lo, min(lo + width, len(seqs)))]
+        for k, pr in procs:
+            o, _e = pr.communicate(timeout=300)
+            if pr.returncode == 0 and o:
+                out[k] = pickle.loads(base64.b64decode(o))
+    return out
 
 
 # ---------------------------------------------------------------- warm-up: which attributes can an instance carry?
@@ -440,6 +487,8 @@ def _items() -> List[Item]:
     what = ", ".join(f"{'lexer' if o == 'L' else 'parser'}.{n}:{k}" for o, n, k in ATTRS)
     items = []
     for i, probe in enumerate(PROBES):
+        if probe in NEAR[4:]:
+            continue        # near-duplicates matter for sequences on one pair (below), not for the one-step stale-state argument
         items.append(Item(f"stale_{i}", sig, pre, f"step({i}, {args})", family="stale-state",
                           describe=f"parse({probe!r}) with every instance attribute symbolic == fresh pair  [{what}]" if i == 0
                           else f"parse({probe!r}) with every instance attribute symbolic == fresh pair"))
@@ -466,6 +515,12 @@ def precompute() -> None:
     """reference outcomes of fresh instances, computed concretely at import (outside CrossHair: it mis-models hash() of the
     frozen AST dataclasses now and then - 'TypeError: __hash__ method should return an integer' - when the same rewriting
     runs twice on one path)"""
+    texts = list(dict.fromkeys(PROBES + [m for _t, ms in IN_LISTS for m in ms]
+                               + [x for mp in ALIAS_MAPS for kv in mp.items() for x in kv]))
+    for t, o in zip(texts, isolated_outcomes([[t] for t in texts])):
+        if o is not None:
+            FRESH[t] = o
+            ISOLATED[t] = o
     for t in PROBES:
         fresh_outcome(t)
     for x in REPEATED:
@@ -476,6 +531,27 @@ def precompute() -> None:
     for mi in range(len(ALIAS_MAPS)):
         for ti in range(len(REWRITE_INPUTS)):
             FRESH_REWRITE[(mi, ti)] = _rewriter_result(ALIAS_MAPS[mi], None, None, REWRITE_INPUTS[ti])
+
+
+ISOLATED: Dict[str, tuple] = {}
+
+
+def process_history_differences() -> List[dict]:
+    """after everything this process has parsed: a FRESH pair here must still agree with a fresh pair in a fresh process"""
+    diffs = []
+    for t in PROBES:
+        if t not in ISOLATED:
+            continue
+        got = outcome(ODataLexer(), ODataParser(), t)
+        if got != ISOLATED[t]:
+            d = {"probe": t, "fresh_pair_in_used_process": got, "fresh_pair_in_fresh_process": ISOLATED[t], "history": None}
+            cands = [h for h in HISTORY_POOL + PROBES if h != t]
+            for h, o in zip(cands, isolated_outcomes([[h, t] for h in cands])):
+                if o is not None and o != ISOLATED[t]:
+                    d["history"] = [h]
+                    break
+            diffs.append(d)
+    return diffs[:5]
 
 
 discover()
@@ -495,7 +571,8 @@ def main() -> int:
                    "hash seeds other than the swept ones (finite sweep)", "threads sharing one instance"]
     run.assumptions = ["one step from an arbitrary stale pre-state covers histories of any length and any interleaving with other instances, "
                        "provided instances share no mutable class-level object - checked by the class-table snapshot before/after the "
-                       "concrete sweep", "the fresh pair's outcome is the reference (C10 checks that it is a node or a library exception)"]
+                       "concrete sweep", "the reference outcome of every probe is that of a fresh pair in a fresh interpreter that parses nothing else "
+                       "(C10 checks that it is a node or a library exception)"]
     global STALE_LEN
     STALE_LEN = 2 if run.tier == "quick" else 5
     run.bounds["stale_values"] = run.bounds["stale_values"].replace("<= 2", f"<= {STALE_LEN}")
@@ -534,6 +611,19 @@ def main() -> int:
                           "history-sweep(concrete)")
     else:
         run.discharged(f"history-sweep: {n_hist} histories x {len(PROBES)} probes, used pair == fresh pair", "history-sweep(concrete)", nontrivial=False)
+    pdiffs = process_history_differences()
+    if not ISOLATED:
+        run.harness_error("process-history", "history-sweep(concrete)", "the isolated reference processes produced no outcome")
+    elif pdiffs:
+        for d in pdiffs:
+            run.violation(f"process-history:{d['probe']}", {**d, "how_to_replay": "in one interpreter parse the history text(s) with one fresh pair, "
+                                                            "then the probe with ANOTHER fresh pair; compare with the probe parsed first in a new interpreter"},
+                          f"a fresh lexer/parser pair parses {d['probe']!r} to {d['fresh_pair_in_used_process'][:2]} in a process that has parsed "
+                          f"{d['history'] or 'the sweep inputs'} before, and to {d['fresh_pair_in_fresh_process'][:2]} in a fresh process: state is shared "
+                          "between instances", "history-sweep(concrete)")
+    else:
+        run.discharged(f"process-history: {len(ISOLATED)} texts, a fresh pair in this (used) process == a fresh pair in a fresh interpreter",
+                       "history-sweep(concrete)", nontrivial=False)
     rdiffs = rewriter_differences()
     if rdiffs:
         for d in rdiffs:
